@@ -17,7 +17,7 @@ class C15(Prop):
     reach = ["tls_legacy", "tls13", "tls13_switch_client", "tls13_switch_server", "quic_initial", "quic_tls", "quic_ku",
              "mac_keys", "cbc_iv_implicit", "aead_fixed_iv", "sha384_prf", "resumption_shares_master_secret",
              "key_log_lines_of_connections_interleaved", "quic_version_negotiation_first",
-             "tls13_hello_retry_request"]
+             "tls13_hello_retry_request", "long_key_log_line_across_block_boundary"]
 
     def plan(self, tier):
         p = super().plan(tier)
@@ -51,6 +51,10 @@ class C15(Prop):
                 conns.append(gen.gen_tls_conn(R.fork("conn-other", j), n0 + j, cfg, used))
             spec["keychan"] = {"mode": "file", "perm_seed": R.bits(30)}
             spec["policy"] = "concurrent"
+        elif idx >= len(pairs) and R.chance(12):
+            # a long key-log file in which one line of the connection lies across a block boundary
+            spec["keychan"] = {"mode": "file", "straddle": R.bits(30)}
+            spec["long_key_log"] = True
         return spec
 
     def quic_available(self):
@@ -74,7 +78,9 @@ class C15(Prop):
                     mine += [p for p in pr if p[0] == "keyupd"]
                 if conn.get("resumes") is not None:
                     out.count("reach:resumption_shares_master_secret")
-                if "keychan" in spec:
+                if spec.get("long_key_log"):
+                    out.count("reach:long_key_log_line_across_block_boundary")
+                elif "keychan" in spec:
                     out.count("reach:key_log_lines_of_connections_interleaved")
                 if conn.get("hrr"):
                     out.count("reach:tls13_hello_retry_request")
